@@ -35,6 +35,30 @@ def lease_horizon(ctx, info):
     return {"lease_ttl_beyond_int64_horizon": {"cases": len(rows), "ttls_ns": ttls}}
 
 
+def long_poll_lease(ctx, info):
+    """a dequeue that WAITS (max_wait) and is handed a message some time into its wait: the lease it gets runs for the lease TTL it asked
+    for from the hand-out - not from the start of the call (the store clock moves a second during the wait)"""
+    d = os.path.join(ctx.scratch, "lplease")
+    os.makedirs(d, exist_ok=True)
+    rc, out, err = C.harness_run(info["hbin"], ["long-poll"], {"dir": d, "max_wait_ms": 600}, timeout=120)
+    if rc != 0:
+        raise RuntimeError("long-poll failed: " + err[-1500:])
+    rows = json.loads(out)["rows"]
+    ttl = 60 * 10 ** 9
+    n = 0
+    for r in rows:
+        if r.get("err") or r["items"] < 1:
+            continue
+        n += 1
+        if r["lease_left_ns"] < ttl:
+            C.report(ctx, "long-poll-lease-short:%s" % r["backend"],
+                     "a waiting dequeue (lease TTL 1 m, max_wait 600 ms) on the %s store was handed the message after its wait (%s) with %d ns of lease left at the "
+                     "instant it returned: %d ns of the minute it asked for were spent before it held the message - another consumer can be handed the message "
+                     "while this one is inside the TTL it asked for" % (r["backend"], r["scenario"], r["lease_left_ns"], ttl - r["lease_left_ns"]),
+                     {"kind": "history", "case": {"backend": r["backend"], "scenario": r["scenario"], "lease_ttl_ns": ttl, "max_wait_ms": 600}, "observed": r})
+    return {"long_poll_leases_checked": n}
+
+
 def extra(ctx, info, rng, *rest):
     cov = __import__("lib.c03conc", fromlist=["run"]).run(ctx, info, rng)
     cov = cov or {}
@@ -47,6 +71,7 @@ def extra(ctx, info, rng, *rest):
     # two processes on one database file: a late lease operation of one against the other's re-letting dequeue
     from lib import twostores
     cov.update(twostores.run_relet(ctx, info))
+    cov.update(long_poll_lease(ctx, info))
     return cov
 
 
